@@ -47,6 +47,9 @@ DSL = {
     "cls_meta": (["AnyFrom", "]", "\\", "^", "-", "a"], ["]", "\\", "^-", "b"]),
     "neg_cls": (N("OneOrMore", ["AnyButFrom", "a", "\n", " "]), ["bcd", "a", "x y"]),
     "ci_group": (N("Group", ["lit", "abc"], True), ["ABC", "aBc", "ab"]),
+    "alt_anchor": (N("Either", N("MatchAtStart", ["lit", "id"]), ["lit", "#"]), ["id", "see #42", "#", "xid 7"]),
+    "alt_anchor_end": (N("Either", ["lit", "ab"], N("MatchAtEnd", ["lit", "z"])), ["z", "abz", "za", "ab z"]),
+    "alt_line": (N("Either", N("MatchAtLineStart", ["lit", "x"]), N("MatchAtLineEnd", ["lit", "y"]), ["lit", "q"]), ["x", "ay\nxb", "yq", "\nx"]),
     "ci_prefix": (["op", "+", N("Group", ["lit", "ab"], True), ["lit", "cd"]], ["ABcd", "abCD", "ABCD", "abcd"]),
     "ci_suffix": (["op", "+", ["lit", "Ab"], N("Group", N("Either", ["lit", "x"], ["lit", "yz"]), True)], ["AbX", "abx", "AbYZ", "Abyz"]),
     "exactly": (N("Exactly", D, 3), ["123", "12", "12345"]),
@@ -104,3 +107,23 @@ def make_text(rng, names, max_words=8, multiline=None, final_newline=None):
     if final_newline and multiline:
         text += "\n"
     return text
+
+
+# texts of (about) n characters that a pattern matches *as a whole* (is_exact_match is True): long exact witnesses are
+# what block-wise or prefix-based shortcuts get wrong
+EXACT = {
+    "word": lambda n: "a" * n,
+    "digits": lambda n: "7" * n,
+    "neg_cls": lambda n: "b" * n,
+    "greek": lambda n: "\u03b1" * n,
+    "lazy": lambda n: "<" + "x" * max(1, n - 2) + ">",
+    "linestart": lambda n: "x" * n,
+    "lineend": lambda n: "q" * n,
+    "strstart": lambda n: "a_1" * max(1, n // 3),
+    "strend": lambda n: "z9" * max(1, n // 2),
+    "raw_ws": lambda n: " " * n,
+    "anyspan": lambda n: "a\nb",
+    "kv": lambda n: "k" * max(1, n - 3) + "=12",
+    "raw_named": lambda n: "2024-05",
+    "either": lambda n: "9" * n,
+}
